@@ -257,6 +257,20 @@ def install(reg, src):
         unfold(sp, "cov", r, (DS,))
         return COVERS(r, DS)
 
+    def covers_from_occ(sp, e, DS):
+        """Bridge lemma (structural induction, lean: covers_iff_occ): if every name occurring in e is in DS then COVERS(e, DS);
+        stated with a witness name at which all registered for-all-names facts are instantiated."""
+        from .problem_c import witness_name
+        ip = sp.ip
+        r = sp.ref(e)
+        key = f"covocc:{r}:{DS}"
+        if key in ip.path.unfolded:
+            return
+        ip.path.unfolded.add(key)
+        wn = witness_name(ip, "uncovered")
+        ip.path.assume(z3.Or(covers(sp, e, DS), z3.And(sp.occ(e, wn), z3.Not(z3.Select(DS, wn)))))
+    reg.covers_from_occ = covers_from_occ
+
     eval_contract(f"{M}:_build_evaluator", 1)
     eval_contract(f"{M}:_build_evaluator_iterative", 1,
                   bounded="positional result stack of a two-phase DFS; node blocks build the same closures as the recursive twin "
@@ -361,6 +375,7 @@ def install(reg, src):
         return SpecFn(None, "index-items", meta={"idx": IDX, "as_dict": lambda ip2: m})
     reg.items_value = items_value
     reg.covers = covers
+    reg.COVERS = COVERS
     reg.compiled_fn = compiled_fn
     reg.make_index_map = make_index_map
     reg.point_for = point_for
